@@ -6,6 +6,8 @@ package main
 
 import (
 	"fmt"
+	"go/token"
+	"go/types"
 	"go/constant"
 	"regexp/syntax"
 	"sort"
@@ -53,6 +55,40 @@ func (g *Gen) callerObligations(prop string) []*Obligation {
 		case len(bad) > 0:
 			sort.Strings(bad)
 			o.Static, o.Result = "fails: also called by "+strings.Join(bad, ", "), "failed"
+		default:
+			o.Static = "holds"
+		}
+		out = append(out, o)
+	}
+	return out
+}
+
+// typeObligations: declared type identities (a type switch over one spelling must match values built with the other).
+func (g *Gen) typeObligations(prop string) []*Obligation {
+	var out []*Obligation
+	for _, d := range g.sameTypes {
+		if !hasProp(d.Props, prop) {
+			continue
+		}
+		o := &Obligation{Name: d.Pkg + ".G.same-type:" + d.A, Kind: "G", Props: d.Props, Func: "(types)", Clause: d.A + " and " + d.B + " denote the same type"}
+		var tp *types.Package
+		for path, sp := range g.spkgs {
+			if strings.HasPrefix(path, modPath) && sp.Pkg.Name() == d.Pkg {
+				tp = sp.Pkg
+			}
+		}
+		if tp == nil {
+			o.Static, o.Result = "fails: no package "+d.Pkg, "failed"
+			out = append(out, o)
+			continue
+		}
+		ta, ea := types.Eval(g.fset, tp, token.NoPos, d.A)
+		tb, eb := types.Eval(g.fset, tp, token.NoPos, d.B)
+		switch {
+		case ea != nil || eb != nil || !ta.IsType() || !tb.IsType():
+			o.Static, o.Result = fmt.Sprintf("fails: cannot evaluate the type expressions (%v, %v)", ea, eb), "failed"
+		case !types.Identical(ta.Type, tb.Type):
+			o.Static, o.Result = "fails: "+ta.Type.String()+" is not "+tb.Type.String(), "failed"
 		default:
 			o.Static = "holds"
 		}
